@@ -426,9 +426,6 @@ pub fn plumb_stream(ctx: &mut Ctx) {
             // a supplementary buffer is reported as supplementary
             let w = sup.get(SectionId::DebugStr);
             ctx.check_eq("load_sup.lookup_offset_id", &Some((true, SectionId::DebugStr, 1usize)), &d.lookup_offset_id(gimli::ReaderOffsetId(w.as_ptr() as u64 + 1)), &input);
-            // sup_string reads the supplementary .debug_str
-            let s = d.sup_string(gimli::DebugStrOffset(0)).ok().map(|s| s.slice().to_vec());
-            ctx.check_eq("load_sup.sup_string", &Some(sup.vec(SectionId::DebugStr)), &s, &input);
             // ---------------- make_dwo
             let mut o: gimli::Dwarf<Rd> = match gimli::Dwarf::load(|id| dwo.load_slice(id, le)) {
                 Ok(d) => d,
